@@ -40,7 +40,7 @@ ASSUMPTIONS = ["atoms' declared separability is truthful (1->1 leaves separable,
 
 
 def _build(case):
-    frames = [G.frame_obj(f["name"], f["naxes"], f.get("order")) if f.get("obj", 1) is not None else f["name"] for f in case["frames"]]
+    frames = [G.frame_obj(f["name"], f["naxes"], f.get("order"), f.get("unit")) if f.get("obj", 1) is not None else f["name"] for f in case["frames"]]
     w = gw.WCS([(fr_, None if t is None else G.build(t)) for fr_, t in zip(frames, case["trs"])])
     if case.get("box"):
         b = tuple((float(G.fr(lo)), float(G.fr(hi))) for lo, hi in case["box"])
@@ -135,6 +135,26 @@ def impl(case):
         except Exception as e:
             w2ai.append({"err": C.exc_enum(e)})
     res["w2ai"], res["w2ai_int"] = w2ai, ints
+    # world inputs of different but broadcastable shapes (a scalar next to arrays): the same indices as point by point
+    analytic = True
+    try:
+        w.backward_transform
+    except Exception:
+        analytic = False        # (the iterative inverse takes inputs of one common shape only: not part of this comparison)
+    if analytic and nout >= 2 and len(case["world"]) >= 2 and all("ok" in v for v in w2ai):
+        try:
+            wa = [G.to_float_pt(p) for p in case["world"]]
+            args = [wa[0][0]] + [np.array([p[i] for p in wa]) for i in range(1, nout)]
+            r = w.world_to_array_index_values(*args)
+            rr = r if isinstance(r, tuple) else (r,)
+            want = []
+            for p in wa:
+                q = w.world_to_array_index_values(wa[0][0], *p[1:])
+                want.append([int(v) for v in (q if isinstance(q, tuple) else (q,))])
+            got = [[int(v) for v in np.broadcast_to(np.asarray(x), (len(wa),))] for x in rr]
+            res["w2ai_mix"] = "ok" if [list(c) for c in zip(*got)] == want else "differs: %s, point by point %s" % ([list(c) for c in zip(*got)], want)
+        except Exception as e:
+            res["w2ai_mix"] = "raised %s: %s" % (type(e).__name__, str(e)[:80])
     # array call of the values methods: same numbers, same shape
     try:
         cols = [np.array(c) for c in zip(*[G.to_float_pt(p) for p in case["pts"]])]
@@ -166,6 +186,15 @@ def impl(case):
     return res
 
 
+def _d51(case):
+    """astropy reports uses_quantity = True for a model without parameters: with frames that declare different units the values
+    interface wraps the pixels in the input unit and then cannot convert the (untouched) result to the output unit (finding D51)"""
+    if case.get("kind") != "api":
+        return False
+    fs = case["frames"]
+    return bool(fs[0].get("unit") and fs[-1].get("unit") and fs[0]["unit"] != fs[-1]["unit"] and all(G.paramless(t) for t in case["trs"]))
+
+
 def _d36(case):
     """astropy: the inverse of a bare Scale/Multiply carries the forward bounding box mapped through the transform WITHOUT sorting the
     limits, so a negative factor gives an empty interval (lower > upper) and every inverse evaluation is masked (finding D36)"""
@@ -177,6 +206,8 @@ def _d36(case):
 
 def oracle(case, res):
     out = _oracle(case, res)
+    if _d51(case):
+        return [("D51", what) for _, what in out]
     if _d36(case):
         out = [("D36", what) for _, what in out]
         if not out and all(v.get("ok") and all(x == "nan" for x in v["ok"]) for v in res.get("inv", [])):
@@ -246,6 +277,8 @@ def _oracle(case, res):
             if a["ok"] != want:
                 out.append(("w2ai", "world_to_array_index_values(%s) = %s, nearest pixel centres of the reversed pixel position %s are %s" %
                             (p, a["ok"], b["ok"], want)))
+    if res.get("w2ai_mix", "ok") != "ok":
+        out.append(("w2ai_mix", "world_to_array_index_values with a scalar first coordinate and array others: %s" % res["w2ai_mix"]))
     if not res["w2ai_int"]:
         out.append(("w2ai_int", "world_to_array_index_values does not return integers"))
     if res["pixel_n_dim"] != res["nin"] or res["world_n_dim"] != res["nout"]:
@@ -288,6 +321,8 @@ def compare(case, res, resp):
     m = resp["ok"]
     if [m["nin"], m["nout"]] != [res["nin"], res["nout"]]:
         return "arity impl %s/%s model %s/%s" % (res["nin"], res["nout"], m["nin"], m["nout"])
+    if _d51(case):
+        return None        # (finding D51: the values interface fails altogether for these; reported by the oracle under that id)
     if not case.get("box"):
         if m["p2w"] != res["p2w"]:
             return "pixel_to_world_values impl %s model %s" % (res["p2w"], m["p2w"])
@@ -343,6 +378,11 @@ def gen(rng, tier):
             f["obj"] = 1
         if rng.random() < 0.25:
             frames[-1]["obj"] = None        # the output frame given only by name: dimension counts come from the transforms
+        if rng.random() < 0.3:
+            # frames that declare units (pixels in, degrees out); the transforms carry none
+            frames[0]["unit"], frames[-1]["unit"] = "pix", "deg"
+        if frames[-1].get("obj") is None:
+            pass
         elif frames[-1]["naxes"] > 1 and rng.random() < 0.4:
             # a lone (non-composite) output frame whose axes_order is not the identity: the values interface and the correlation matrix
             # follow the transform's outputs
